@@ -16,7 +16,10 @@ MANIFEST = dict(
          "script template, proved once for a template interpreter), C04_no_foreign_tx (under injectivity of the digest and "
          "of signature verification no other transaction verifies), C04_bolt3_trimming (the signed transaction is bolt3_tx - "
          "no output for an HTLC below dust + second-stage fee - because accepted contents carry no trimmed HTLC; "
-         "C04_validated_contents_untrimmed discharges that premise from C05's validator theorem), C04_wire_binding (the same at the protocol handler: "
+         "C04_validated_contents_untrimmed discharges that premise from C05's validator theorem), "
+         "C04_htlc_phase1_recomposed (raw HTLC entry point: a signature exists only when the supplied digest equals the digest "
+         "of the second-stage transaction rebuilt from the channel's parameters, and it signs that rebuilt digest, for every "
+         "validate_htlc_tx verdict, i.e. under every policy filter), C04_wire_binding (the same at the protocol handler: "
          "SignRemoteCommitmentTx2 signs canon_tx of wire_content = the glue that truncates msat amounts to satoshis and maps "
          "the wire sides, and SignRemoteCommitmentTx accepts that transaction with the same signature), C04_validated_contents_bounded (the expiry premise of "
          "the round trip follows from C05's validator theorem), C04_hash_lengths (the executable SHA-256 / RIPEMD-160 "
@@ -43,6 +46,7 @@ MANIFEST = dict(
 PINNED = ["C04_phase1_canonical", "C04_phase2_sig", "C04_decode_roundtrip", "C04_canon_order_independent",
           "C04_entry_points_agree", "C04_hash_lengths", "C04_entry_points_agree_sha256", "C04_no_foreign_tx",
           "C04_htlc_sigs_bind", "C04_wire_binding", "C04_bolt3_trimming", "C04_validated_contents_untrimmed",
+          "C04_htlc_phase1_recomposed",
           "C04_nonvacuous", "C04_anchors_type_refuted", "C04_old_vout_truncation_refuted",
           "C04_validated_contents_bounded"]
 
@@ -74,11 +78,11 @@ def _unframe(flat):
     return secs
 
 
-def _eval_many(terms, name, timeout=600):
+def _eval_many(terms, name, timeout=1500):
     """Evaluate `term_i : list N` for every i with vm_compute, sharded over coqc processes."""
     if not terms:
         return []
-    shards = min(lib.NCPU, len(terms))
+    shards = min(4 * lib.NCPU, max(1, len(terms) // 4))
     chunks = [list(range(k, len(terms), shards)) for k in range(shards)]
 
     def one(arg):
@@ -161,6 +165,7 @@ def run(res):
     cases = sorted((c for p in parts for c in p.get("CASE", [])), key=lambda c: c["idx"])
     herr = [h for p in parts for h in p.get("HARNESS_ERROR", [])]
     stats = _merge_stats([p["STATS"][0] for p in parts if p.get("STATS")])
+    hrecs = sorted((h for p in parts for h in p.get("HTLC", [])), key=lambda h: h["idx"])
     t2 = time.time()
     # pass B: decode / sign_phase1 of the model on every mutant
     chunk = 150
@@ -182,7 +187,24 @@ def run(res):
                 "; ".join("(%s, %s)" % (hx(k), hx(c["coq_oracle"][k])) for k in other),
                 "; ".join(obs), "; ".join(mt)))
             owner.append((ci, off))
-    answers = _eval_many(terms, "c04_b")
+    # pass C: the raw HTLC-transaction entry point (decode_and_validate_htlc_tx) against decode_htlc_tx
+    hterms, howner = [], []
+    for hi, h in enumerate(hrecs):
+        for side, key in (("counterparty", "cp"), ("holder", "holder")):
+            reqs = h["reqs_" + key]
+            sk = h["coq_" + key]
+            for off in range(0, len(reqs), 40):
+                part = reqs[off:off + 40]
+                scripts = sorted({m.group(1) for r in part for m in re.finditer(r"@R([0-9a-f]*)@", r)})
+                pos = {sc: i for i, sc in enumerate(scripts)}
+                part = [re.sub(r"@R([0-9a-f]*)@", lambda m: "%d%%nat" % pos[m.group(1)], r) for r in part]
+                hterms.append("bad_hreqs %s %s [%s] [%s]" % (sk[0], sk[1], "; ".join('(hx "%s")' % sc for sc in scripts),
+                                                             "; ".join(part)))
+                howner.append((hi, side, off))
+    answers = _eval_many(terms + hterms, "c04_b")
+    hanswers = answers[len(terms):]
+    answers = answers[:len(terms)]
+    hbad = [(hrecs[hi], side, [off + i for i in a]) for (hi, side, off), a in zip(howner, hanswers) if a]
     bad = [[] for _ in cases]
     for (ci, off), a in zip(owner, answers):
         bad[ci].extend(off + i for i in a)
@@ -233,6 +255,15 @@ def run(res):
                               "sign_phase1 on mutant(s) %s (correspondence commit-mutants)" % b[:5],
                               {"correspondence": "commit-mutants", "theorem": "C04_phase1_canonical", "case": strip(c),
                                "mutant_indices": b[:20], "mutants": [c["coq_mutants"][i] for i in b[:5]]}, has_input=False)
+    if not n_viol:
+        for h, side, idxs in hbad[:2]:
+            res.violation("decode_and_validate_htlc_tx (%s entry point) disagrees with Model.Commitment.decode_htlc_tx on "
+                          "request(s) %s: fee rate / direction / expiry / the digest handed back for signing "
+                          "(correspondence commit-htlc-p1)" % (side, idxs[:5]),
+                          {"correspondence": "commit-htlc-p1", "theorem": "C04_htlc_phase1_recomposed", "case": h["case"],
+                           "side": side, "request_indices": idxs[:20],
+                           "requests": [h["reqs_" + ("cp" if side == "counterparty" else "holder")][i][:1500] for i in idxs[:3]]},
+                          has_input=False)
     signed = [c for c in cases if c["phase2"] == "signed"]
     nontrivial = set()
     for c in signed:
@@ -267,12 +298,22 @@ def run(res):
                 "(wire_content ...) for every case and used to verify the replies. HTLC amounts: a quarter of them sit at "
                 "threshold-1 / threshold / threshold+1 of BOTH trimming thresholds (330 + feerate*663/1000 and "
                 "330 + feerate*703/1000; 354 on zero-fee-anchor channels) on BOTH sides, so a received HTLC between the two "
-                "thresholds (trimmed by BOLT-3, to be refused by the validator) occurs in several cases per run",
+                "thresholds (trimmed by BOLT-3, to be refused by the validator) occurs in several cases per run. Raw HTLC entry "
+                "points (sign_counterparty_htlc_tx, sign_holder_htlc_tx): for up to two HTLC transactions per case (the model's "
+                "BOLT-3 ones; offered and received; all types but the deprecated Anchors) the canonical transaction and ~25 "
+                "single-field changes (version, locktime, sequence, outpoint, output value / script / count, input count, "
+                "script_sig, amount, redeemscript) are submitted on four nodes: default filter, warn on policy-htlc-other, warn "
+                "on the prefix policy-htlc-, permissive filter; every returned signature must verify under the channel's "
+                "tweaked HTLC key on the second-stage transaction the harness rebuilds with LDK's build_htlc_transaction from "
+                "the channel's own delay/keys, and none may be returned when the supplied digest differs from it; "
+                "decode_and_validate_htlc_tx's answer must be the same under all four filters and equal the model's "
+                "decode_htlc_tx (digest computed in Coq)",
         "samples": [strip(c) for c in cases[:2]],
         "cases": len(cases),
         "phase2_signed": len(signed),
         "traces_validated_against_impl": len(cases),
-        "correspondence_disagreements": sum(1 for b in bad if b) + len(builder_bad),
+        "correspondence_disagreements": sum(1 for b in bad if b) + len(builder_bad) + len(hbad),
+        "htlc_raw_requests": sum(len(h["reqs_cp"]) + len(h["reqs_holder"]) for h in hrecs),
         "monitor_failures": n_viol,
         "anchors_type_divergence_cases": len(anchors_div),
         "digests_cross_checked": sum(1 for c in cases if c.get("digest_checked")),
